@@ -554,6 +554,72 @@ def classify_const(c, io, drv):
     return "%s:%s" % (c["entry"], "length" if len(io["out"]) != len(drv["spec"]) else "values")
 
 
+# --- white_noise / gauss_noise: duration and range only ---------------------------------------------
+def gen_noise(rng, tier, scale):
+    cases = []
+    k = (80 if tier == "quick" else 1500) * scale
+    for _ in range(k):
+        what = rng.choice(["white_noise", "gauss_noise"])
+        r = rng.random()
+        if r < 0.1:
+            dur = None
+        elif r < 0.2:
+            dur = "inf"
+        else:
+            d = gen_dur(rng)
+            if rng.random() < 0.12:
+                d = -d
+            dur = num(rng, d)
+        lo, hi = sorted([dyadic(rng), dyadic(rng)])
+        c = {"entry": what, "dur": dur, "n": rng.choice([0, 1, 5, 30, 60, 100])}
+        if rng.random() < 0.6:
+            c["p1"], c["p2"] = num(rng, lo), num(rng, hi if what == "white_noise" else abs(hi))
+        cases.append(c)
+    return cases
+
+
+def impl_noise(c):
+    import audiolazy
+    f = getattr(audiolazy, c["entry"])
+    try:
+        if "p1" in c:
+            s = f(_dur_py(c["dur"]), pv(c["p1"]), pv(c["p2"]))
+        elif c["dur"] is None and c["n"] % 2:
+            s = f()
+        else:
+            s = f(_dur_py(c["dur"]))
+    except Exception as e:
+        return {"out": [], "end": err_kind(e)}
+    out, end = drain(s, c["n"])
+    ok = all(isinstance(x, float) and x == x for x in out)
+    return {"out": [enc(x) for x in out] if ok else [repr(x) for x in out], "end": end, "floats": ok}
+
+
+def req_noise(c):
+    return {"entry": "noise", "dur": None if c["dur"] in (None, "inf") else c["dur"]["v"], "n": c["n"]}
+
+
+def cmp_noise(c, io, drv):
+    res = []
+    exp_end = "fuel" if drv["model"] == c["n"] else "stop"
+    if len(io["out"]) != drv["model"] or io["end"] != exp_end:
+        res.append(("model", "%s: impl yields %d samples/%s, model %d/%s" % (c["entry"], len(io["out"]), io["end"], drv["model"], exp_end)))
+    bad = len(io["out"]) != drv["spec"] or io["end"] != ("fuel" if drv["spec"] == c["n"] else "stop") or not io["floats"]
+    if not bad and c["entry"] == "white_noise":
+        lo, hi = (qv(c["p1"]), qv(c["p2"])) if "p1" in c else (F(-1), F(1))
+        bad = any(not (lo <= dec(x) <= hi) for x in io["out"])
+    if bad:
+        res.append(("spec", "%s: impl yields %d samples/%s (range ok: see values), spec %d samples" % (
+            c["entry"], len(io["out"]), io["end"], drv["spec"])))
+    return res
+
+
+def classify_noise(c, io, drv):
+    if io["end"] not in ("stop", "fuel"):
+        return "%s:%s" % (c["entry"], io["end"])
+    return "%s:%s" % (c["entry"], "length" if len(io["out"]) != drv["spec"] else "range")
+
+
 # --- adsr / attack ---------------------------------------------------------------------------------
 def gen_time(rng, zero_rate=0.04):
     r = rng.random()
@@ -1229,6 +1295,8 @@ ENTRIES = {
                  neigh=neigh_line, classify=classify_line, request=req_line),
     "ones": dict(gen=gen_const, impl=impl_const, cmp=cmp_const, tally=tally_const, shrink=shrink_const,
                  neigh=neigh_const, classify=classify_const, request=req_const),
+    "white_noise": dict(gen=gen_noise, impl=impl_noise, cmp=cmp_noise, tally=tally_const, shrink=shrink_const,
+                        neigh=neigh_const, classify=classify_noise, request=req_noise),
     "adsr": dict(gen=gen_adsr, impl=impl_adsr, cmp=cmp_adsr, tally=tally_adsr, shrink=shrink_adsr,
                  neigh=neigh_adsr, classify=classify_adsr, request=req_adsr),
     "table_call": dict(gen=gen_table, impl=impl_table, cmp=cmp_table, tally=tally_table, shrink=shrink_table,
@@ -1240,7 +1308,7 @@ ENTRIES = {
     "karplus": dict(gen=gen_ks, impl=impl_ks, cmp=cmp_ks, tally=tally_ks, shrink=shrink_ks, request=req_ks),
 }
 for _alias, _of in (("table_getitem", "table_call"), ("fadein", "line"), ("fadeout", "line"), ("zeros", "ones"), ("zeroes", "ones"),
-                    ("impulse", "ones"), ("attack", "adsr")):
+                    ("impulse", "ones"), ("attack", "adsr"), ("gauss_noise", "white_noise")):
     ENTRIES[_alias] = dict(ENTRIES[_of], gen=None)
 
 
